@@ -13,6 +13,7 @@ from dalimc.core.runner import new_result, add_violation, observe, sample
 from dalimc.spec import ref_deframer as RD
 
 ID = "C19"
+OPTIMISED_STRIDE = {"quick": 10, "thorough": 20}      # every k-th shard once more in an interpreter started with -O
 LEVEL = "model_checking"
 ENGINE = "E3"
 TECHNIQUE = "exhaustive enumeration of token sequences up to a depth x chunk placements through the real receiver state machines vs independent reference deframers"
